@@ -196,7 +196,7 @@ class NUTS(Sampler):
 
                 # Metropolis step
                 alpha2 = min(1, (n_prime/n)) #min(0, np.log(n_p) - np.log(n))
-                if (s_prime == 1) and (np.random.rand() <= alpha2):
+                if (s_prime == 1) and (np.random.rand() < alpha2):
                     theta[:, k] = theta_prime
                     joint_eval[k] = joint_prime
                     grad = np.copy(grad_prime)
@@ -319,7 +319,7 @@ class NUTS(Sampler):
 
                 # Metropolis step
                 alpha2 = n_2prime / max(1, (n_prime + n_2prime))
-                if (np.random.rand() <= alpha2):
+                if (np.random.rand() < alpha2):
                     theta_prime = np.copy(theta_2prime)
                     joint_prime = np.copy(joint_2prime)
                     grad_prime = np.copy(grad_2prime)
